@@ -48,6 +48,7 @@ def run(ctx, spec):
     res = C.prove(ctx, spec["prop_file"], extra_targets=["Corr/Compare.vo"])
     ctx.log("proof stage:", "ok (%d theorems)" % res["discharged"] if res["ok"] else "BROKEN at " + res["stage"] + " " + str(res.get("failed_at", "")))
 
+    spec["proof_ok"] = res["ok"]      # oracles that set marginal outcomes aside as known findings stop doing so when the proof is broken
     if ctx.replay:
         cases = replay_cases(ctx)
     else:
